@@ -635,5 +635,7 @@ extern "C" int engineexport_finalize ()
     else
       delete global_graph_algo;
 
+    global_algo_freed = true;
+
     return 0;
     }
